@@ -594,6 +594,7 @@ class ExtendedIndexedOperand(Operand):
                 elif additional.is_8_bit():
                     raw_post_byte |= 0x98
                     size += 1
+                    additional = NumericValue(additional.int, size_hint=2)
                 elif additional.is_16_bit():
                     raw_post_byte |= 0x99
                     size += 2
@@ -729,6 +730,7 @@ class IndexedOperand(Operand):
                 elif additional.is_8_bit():
                     raw_post_byte |= 0x88
                     size += 1
+                    additional = NumericValue(additional.int, size_hint=2)
                 elif additional.is_16_bit():
                     raw_post_byte |= 0x89
                     size += 2
